@@ -349,10 +349,12 @@ func (h *lbHarness) newRequest(spec reqSpec) (*http.Request, int) {
 	if client == "" {
 		client = "192.0.2.1"
 	}
+	// every request comes from another source port (a new connection), as real clients do
+	port := 40000 + (id*7919)%20000
 	if strings.Contains(client, ":") && !strings.HasPrefix(client, "[") {
-		r.RemoteAddr = "[" + client + "]:40000"
+		r.RemoteAddr = fmt.Sprintf("[%s]:%d", client, port)
 	} else {
-		r.RemoteAddr = client + ":40000"
+		r.RemoteAddr = fmt.Sprintf("%s:%d", client, port)
 	}
 	if spec.xff != "" {
 		r.Header.Set("X-Forwarded-For", spec.xff)
